@@ -27,7 +27,7 @@ def ty_range(ty):
 
 
 class Analysis:
-    def __init__(self, fn, widen_after=4):
+    def __init__(self, fn, widen_after=12):
         self.fn = fn
         self.cfg = mir.Cfg(fn)
         self.m = fn["mir"]
@@ -135,8 +135,16 @@ class Analysis:
                     c = [a[0] * b[0], a[0] * b[1], a[1] * b[0], a[1] * b[1]]
                     r = (min(c), max(c))
                 return ("math", r)
-            if base in ("BitAnd",) and b is not None and b[0] == b[1] and b[0] >= 0:
-                return (0, b[0])
+            if base == "BitAnd":
+                cands = [x[1] for x in (a, b) if x is not None and x[0] >= 0]
+                if cands:
+                    return (0, min(cands))
+            if base == "BitOr" and a is not None and b is not None and a[0] >= 0 and b[0] >= 0:
+                return (max(a[0], b[0]), (1 << max(a[1], b[1]).bit_length()) - 1)
+            if base == "Shr" and a is not None and b is not None and a[0] >= 0 and b[0] == b[1] and 0 <= b[0] < 128:
+                return (a[0] >> b[0], a[1] >> b[0])
+            if base == "Shl" and a is not None and b is not None and a[0] >= 0 and b[0] == b[1] and 0 <= b[0] < 64:
+                return ("math", (a[0] << b[0], a[1] << b[0]))
             if base in ("Lt", "Le", "Gt", "Ge", "Eq", "Ne"):
                 return (0, 1)
             return None
@@ -459,13 +467,12 @@ class Analysis:
                         lo, hi = min(old[k][0], s2[k][0]), max(old[k][1], s2[k][1])
                         new[k] = (lo, hi)
                 if new != old:
-                    self.visits[nb] = self.visits.get(nb, 0) + 1
-                    if self.visits[nb] > self.widen_after:
-                        for k in list(new):
-                            if new[k] != old.get(k):
-                                tr = None
-                                if len(k) == 1:
-                                    tr = ty_range(self.locals[k[0]]["ty"])
+                    for k in list(new):
+                        if new[k] != old.get(k):
+                            vk = (nb, k)
+                            self.visits[vk] = self.visits.get(vk, 0) + 1
+                            if self.visits[vk] > self.widen_after:      # widening, per variable
+                                tr = ty_range(self.locals[k[0]]["ty"]) if len(k) == 1 else None
                                 lo = new[k][0] if new[k][0] == old[k][0] else (tr[0] if tr else None)
                                 hi = new[k][1] if new[k][1] == old[k][1] else (tr[1] if tr else None)
                                 if lo is None or hi is None:
